@@ -74,9 +74,43 @@ def run(ctx, quick):
             args, outp = job_for(st, base, ref, d, n_proc=P)
             jobs.append({'job': {'stage': st, 'args': args, 'plan': None}, 'env': {'PYTHONHASHSEED': '0'}})
             meta.append((st, ('workers', P)))
+    # query-marker selection from TWO reference-marker files built on the same cells (every parent's census
+    # ties between them): which file serves a parent must not depend on the hash seed
+    import anndata
+    import shutil
+    a = anndata.read_h5ad(ref['path'])
+    X = a.X.toarray() if hasattr(a.X, 'toarray') else np.asarray(a.X)
+    anndata.AnnData(X=X[:, ::-1].copy(), obs=a.obs, var=a.var).write_h5ad(base / 'ref2.h5ad')
+    (base / 'scratch2').mkdir(exist_ok=True)
+    from harness import stages as _st
+    with build.redirect_fds(str(base / 'stdio2.txt')):
+        _st.precompute(str(base / 'ref2.h5ad'), base / 'stats2.h5', base / 'scratch2', n_proc=1, rows_at_a_time=5)
+        _st.ref_markers(base / 'stats2.h5', base / 'refm2.h5', base / 'scratch2', n_proc=1)
+    shutil.rmtree(base / 'scratch2', ignore_errors=True)
+    two = [str(base / 'refm.h5'), str(base / 'refm2.h5')]
+    canon2 = None
+    for hs in (['0', '1', '5', '7'] if quick else ['0', '1', '2', '3', '5', '7', '11', 'random']):
+        d = ctx.tmpdir('so_querymarkers2_')
+        args, outp = job_for('querymarkers', base, ref, d)
+        args['refm'] = two if hs not in ('5', '11') else two[::-1]      # listed in either order
+        jobs.append({'job': {'stage': 'querymarkers', 'args': args, 'plan': None}, 'env': {'PYTHONHASHSEED': hs}})
+        meta.append(('querymarkers2', ('hashseed', hs)))
     outs = sub.run_stage_jobs(ctx, jobs)
     bad = 0
     for (st, what), o in zip(meta, outs):
+        if st == 'querymarkers2':
+            ctx.count({'stage': st, 'what': what}, nontrivial=True)
+            if not o['ok']:
+                raise MachineryError(f'query markers from two reference files failed: {o["error"]}')
+            if what[1] in ('5', '11'):
+                continue            # the other listing order: not compared (the first listed file wins a tie)
+            if canon2 is None:
+                canon2 = o['digest']
+            elif o['digest'] != canon2:
+                bad += 1
+                ctx.report('querymarkers2:hashseed:differs', f'query markers from two reference-marker files differ under '
+                           f'{what}', {'stage': st, 'what': what})
+            continue
         ctx.count({'stage': st, 'what': what}, nontrivial=True)
         if 'GateTimeout' in json.dumps(build.read_traces(o['trace_dir'])):
             raise MachineryError(f'gate timeout while forcing {what} on stage {st}')
